@@ -388,13 +388,13 @@ func inferFunc(pkg *Package, fn *internal.Elem, sig *types.Signature, targs []ty
 			xlist[i].typ = t.typ
 			if tp := t.typ.TypeParams(); tp != nil {
 				for i := 0; i < tp.Len(); i++ {
-					tparams = append(tparams, tp.At(i))
+					tparams = appendTypeParam(tparams, tp.At(i))
 				}
 			}
 		case *types.Signature:
 			if tp := t.TypeParams(); tp != nil {
 				for i := 0; i < tp.Len(); i++ {
-					tparams = append(tparams, tp.At(i))
+					tparams = appendTypeParam(tparams, tp.At(i))
 				}
 			}
 		}
@@ -405,6 +405,17 @@ func inferFunc(pkg *Package, fn *internal.Elem, sig *types.Signature, targs []ty
 	}
 	typ, err := types.Instantiate(pkg.cb.ctxt, sig, targs[:n], true)
 	return targs, typ, err
+}
+
+// appendTypeParam appends tp unless it is already listed: the same generic
+// function may be passed for several parameters.
+func appendTypeParam(tparams []*types.TypeParam, tp *types.TypeParam) []*types.TypeParam {
+	for _, t := range tparams {
+		if t == tp {
+			return tparams
+		}
+	}
+	return append(tparams, tp)
 }
 
 func checkInferArgs(pkg *Package, fn *internal.Elem, sig *types.Signature, args []*internal.Elem, flags InstrFlags) ([]*internal.Elem, error) {
